@@ -17,8 +17,9 @@ EXTENDS Integers, Sequences, FiniteSets, TLC, Json
 CONSTANTS MaxStmts, MaxVars, Scopes
 
 Names == <<"v1", "v2", "v3", "v4", "v5">>
-Moving == {"rebind", "intolist", "passmut"}
-NonMoving == {"passref", "passimm", "operand", "stmt"}
+\* "passmutb": the call is a bare statement (its value is not bound)
+Moving == {"rebind", "intolist", "passmut", "passmutb"}
+NonMoving == {"passref", "passimm", "passimmb", "operand", "stmt"}
 
 VARIABLES scope, defined, moved, prog, bad
 vars == <<scope, defined, moved, prog, bad>>
